@@ -27,6 +27,7 @@ class Obj:
 class Seq(list):
     def Select(self, f): return Seq(f(x) for x in self)
     def Where(self, f): return Seq(x for x in self if f(x))
+    def First(self): return self[0]
     def Count(self): return reduce(lambda acc, v: acc + 1, self, 0)
     def Sum(self): return reduce(lambda acc, v: acc + v, self, 0)
     def Max(self): return reduce(lambda acc, v: acc if acc > v else v, self, 0)
